@@ -31,7 +31,8 @@ PROOF_TARGETS = ['proofs/P_Cache.vo']
 LEVEL = 'proof'
 RULE = ('op histories up to length 5 over {init A/B/C (equal and different sizes), evaluate in the same grid cell / '
         'adjacent cell / distant cell / outside the PDF grid, change source, second derivative}; trial data managers '
-        'without extra fields, with a static field, with a source field, with source+pre-selection+static fields; PDF '
+        'without extra fields, with a static field, with a source field, with source+pre-selection+static fields, with a '
+        'global-fit-parameter dependent field (plain and is_srcevt_data); PDF '
         'value caching on/off; Linear1D and Parabola1D; a small grid and an MJD-like grid (58000 + k/8); a case is one '
         '(configuration, history), non-trivial when it contains at least one evaluation')
 TRUSTED = [
@@ -42,14 +43,15 @@ TRUSTED = [
     'interpolate.py, pdf.py, i3/pdfratio.py, llhratio.py (G_cache.v); np.all/np.any/np.equal/np.not_equal read per element '
     '(one parameter set for all sources); the multi-source reductions are exercised by the interp-multi predicate only',
     'hand model M_Cache.v of the control flow (which cache is consulted / filled when, what initialize_trial / '
-    'change_shg_mgr / initialize_for_new_trial touch), validated by this correspondence on the real classes',
+    'change_shg_mgr / initialize_for_new_trial touch), validated by this correspondence on the real classes; '
+    'initialize_trial is modelled with a NEW events array (no column of a plain global-fit-parameter field yet)',
     'abstract payloads: PDF values, line/parabola coefficients and the LLH formulas are uninterpreted functions of what they '
     'read (trial data, source at initialisation, source data field values, event data snapshot, grid values); the theorems '
     'hold for every interpretation, float rounding included, because equal inputs give equal outputs',
     'modelled, not verified: SigOverBkgPDFRatio/SourceWeightedPDFRatio keep per-call scratch values (_cache_sig_pd, '
-    '_cache_R_i, ...) that are overwritten by every get_ratio before get_gradient reads them; NOT modelled: '
-    'global-fit-parameter data fields (DataField._global_fitparam_value_list / `name in tdm.events` test; with such fields every '
-    'evaluate bumps the state id, so the id-keyed caches of this model always miss) and the photospline branch',
+    '_cache_R_i, ...) that are overwritten by every get_ratio before get_gradient reads them; one global-fit-parameter '
+    'field depending on the interpolation parameter is modelled (several fields / several parameters are the same loop); '
+    're-using ONE events array object for several trials and the photospline branch are outside',
     'harness oracle: freshly built objects replaying the minimal history',
 ]
 
@@ -83,17 +85,29 @@ def world_coq(wn):
 
 
 def cfg_key(c):
-    return f"{c['world']}/{c['fields']}/{'cache' if c['cache'] else 'nocache'}/{c['interp']}"
+    return f"{c['world']}/{c['fields']}/{'cache' if c['cache'] else 'nocache'}/{c['interp']}/{c.get('gfp') or 'nogfp'}{'/reuse' if c.get('reuse') else ''}"
 
 
 def cfg_coq(c):
     a, b, s = FIELDS[c['fields']]
-    return f"(mkcfg {a} {b} {s} {'true' if c['cache'] else 'false'} {'true' if c['interp'] == 'par' else 'false'})"
+    g = c.get('gfp')
+    return (f"(mkcfg {a} {b} {s} {'true' if c['cache'] else 'false'} {'true' if c['interp'] == 'par' else 'false'} "
+            f"{1 if g else 0} {'true' if g == 'srcevt' else 'false'})")
 
 
-ALL_CFGS = [dict(world=w, fields=f, cache=ca, interp=i)
+ALL_CFGS = [dict(world=w, fields=f, cache=ca, interp=i, gfp=None)
             for w in ('small', 'mjd') for f in ('none', 'stat', 'src', 'all') for ca in (True, False)
             for i in ('lin', 'par')]
+# trial data managers with a global-fit-parameter dependent data field: plain (values in tdm.events) and
+# source-event (is_srcevt_data=True, values in the DataField)
+GFP_CFGS = [dict(world=w, fields=f, cache=ca, interp=i, gfp=g)
+            for g in ('plain', 'srcevt') for w in ('small', 'mjd') for f in ('none', 'all') for ca in (True, False)
+            for i in ('lin', 'par')]
+# ... and the same with ONE events array object per data set handed to initialize_trial again and again
+# (what Analysis.unblind does with data.exp when there is no event selection method)
+REUSE_CFGS = [dict(c, reuse=True) for c in GFP_CFGS if c['gfp'] == 'plain' and c['cache']] + \
+             [dict(world='small', fields='all', cache=True, interp='lin', gfp=None, reuse=True)]
+ALL_CFGS = ALL_CFGS + GFP_CFGS + REUSE_CFGS
 
 
 # ----------------------------------------------------------------- real objects
@@ -116,7 +130,8 @@ class Rig:
         w = WORLDS[c['world']]
         self.unit = w['unit']
         self.cfg = cfg = Config()
-        self.trace = []
+        self.trace = trace = []
+        self.events_objs = {}
         self.shgs = {k: self._mk_shg(k) for k in SOURCES}
         self.cur = src
         shg = self.shgs[src]
@@ -134,10 +149,19 @@ class Rig:
         if nstat:
             tdm.add_data_field('stat', lambda tdm, shg_mgr, pmm:
                                tdm.get_data('x') * 0.01 * (1.0 + shg_mgr.source_list[0].ra))
+        gfp = c.get('gfp')
+        lb = w['lb']
+        if gfp:
+            def calc_w(tdm, shg_mgr, pmm, global_fitparams_dict=None):
+                trace.append(('G',))
+                x = tdm.get_data('x')
+                if gfp == 'srcevt':
+                    x = np.take(x, tdm.src_evt_idxs[1])
+                return x * 0.001 * (global_fitparams_dict['gamma'] - lb + 1.0) + 0.002 * shg_mgr.source_list[0].dec
+            tdm.add_data_field('w', calc_w, global_fitparam_names=['gamma'], is_srcevt_data=(gfp == 'srcevt'))
         gridvals = np.array([w['lb'] + k * w['delta'] for k in range(w['npts'])])
         grid = ParameterGrid('gamma', gridvals, delta=w['delta'])
         bx = BinningDefinition('x', np.linspace(0, 10, 11))
-        trace = self.trace
         unit = self.unit
 
         def norm(tag, k):
@@ -149,6 +173,8 @@ class Rig:
                     v = v + 0.1 * tdm.get_data('src_w')[0]
                 if nstat:
                     v = v + tdm.get_data('stat')
+                if gfp:
+                    v = v + tdm.get_data('w')
                 return v
             return f
         pdfs = []
@@ -192,7 +218,12 @@ class Rig:
         try:
             if kind == 'init':
                 (_, xs, n) = DATA[op[1]]
-                ev = DFRA(np.array([(x,) for x in xs], dtype=[('x', np.float64)]))
+                if self.c.get('reuse'):
+                    if op[1] not in self.events_objs:
+                        self.events_objs[op[1]] = DFRA(np.array([(x,) for x in xs], dtype=[('x', np.float64)]))
+                    ev = self.events_objs[op[1]]
+                else:
+                    ev = DFRA(np.array([(x,) for x in xs], dtype=[('x', np.float64)]))
                 self.tdm.initialize_trial(self.shgs[self.cur], self.pmm, ev, n_events=n)
                 self.llh.initialize_for_new_trial()
                 return ['none']
@@ -246,6 +277,8 @@ def canon_model_step(v):
     for e in tr:
         if e == 'TB':
             t.append(('B',))
+        elif e == 'TG':
+            t.append(('G',))
         elif e[0] == 'TF':
             t.append(('F', e[1]))
         else:
@@ -443,6 +476,11 @@ def corpus_histories():
         # source change followed by a new trial
         [('init', 'A'), ('eval', 'p'), ('src', 2), ('init', 'A'), ('eval', 'p')],
         [('eval', 'p'), ('ns2', 5), ('init', 'A'), ('ns2', 5), ('eval', 'out')],
+        # DataField memo: trial A's last point == trial B's first point, equal (A, B) and different (A, C) event counts
+        [('init', 'A'), ('eval', 'q'), ('eval', 'p'), ('init', 'B'), ('eval', 'p')],
+        [('init', 'A'), ('eval', 'p'), ('init', 'C'), ('eval', 'p'), ('ns2', 5)],
+        [('init', 'B'), ('eval', 'r'), ('eval', 'r'), ('init', 'A'), ('eval', 'r')],
+        [('init', 'A'), ('eval', 'p'), ('eval', 'p'), ('eval', 'q'), ('eval', 'p')],
         [('init', 'A'), ('eval', 'p'), ('eval', 'out'), ('ns2', 5), ('eval', 'p')],
     ]
 
@@ -470,19 +508,20 @@ def gen_cases(ctx):
     if ctx.thorough():
         # exhaustive: all histories up to length 4 over the full alphabet (9 ops) for 4 configurations,
         # all histories of length 5 over the reduced alphabet (6 ops) for 2 configurations
-        def cf(w, f, ca, i):
-            return dict(world=w, fields=f, cache=ca, interp=i)
+        def cf(w, f, ca, i, g=None):
+            return dict(world=w, fields=f, cache=ca, interp=i, gfp=g)
         for c in (cf('small', 'none', True, 'lin'), cf('mjd', 'none', True, 'par'),
-                  cf('small', 'all', True, 'par'), cf('mjd', 'all', True, 'lin')):
+                  cf('small', 'all', True, 'par'), cf('mjd', 'all', True, 'lin'),
+                  cf('small', 'none', True, 'lin', 'srcevt'), cf('mjd', 'all', True, 'par', 'plain')):
             for n in (1, 2, 3, 4):
                 for h in itertools.product(ALPHABET, repeat=n):
                     cases.append((c, list(h)))
         for c in (cf('mjd', 'src', True, 'lin'), cf('small', 'stat', False, 'par')):
             for h in itertools.product(SMALL_ALPHABET, repeat=5):
                 cases.append((c, list(h)))
-        nrand = 4000
+        nrand = 5000
     else:
-        nrand = 700
+        nrand = 900
     for _ in range(nrand):
         cases.append((rng.choice(ALL_CFGS), random_history(rng)))
     return cases
